@@ -32,4 +32,18 @@ PROPS = {
                                   "refinement theorem proved for Polygon/MultiLineString; MultiPoint/MultiPolygon machines are checked against their specs by the correspondence run only"],
         assumptions=["Clone is the identity in the value model (storage separation is C16)", "pushed parts are valid geometries of their own layout"],
     ),
+    "C08": dict(
+        modules=["GeomVerif.Properties.C08"],
+        n_quick=20000, n_thorough=300000, thorough_seeds=4, min_theorems=4,
+        rule="ops: Bounds() of one flat geometry (7 types, layouts XY..XYZM, Layout(5,6,8)); Bounds() of nested collections (depth<=3, "
+             "members XY/XYZ/XYM/XYZM, some with a fixed layout); Extend sequences of 1..6 geometries/collections of mixed layouts on "
+             "NewBounds(NoLayout|XY..XYZM); Overlaps / OverlapsPoint on boxes of a 7x7 grid (edges touch often), the empty box, and random "
+             "values. Ordinates: grid, dyadic, large finite, +-Inf; never NaN or -0. Oracle: per semantic dimension X,Y,Z,M the box must hold "
+             "exactly the min/max over the coordinates having that dimension; interval arithmetic for overlaps. non-trivial = input longer "
+             "than 24 characters; distinct = distinct (op,input) hashes",
+        trusted_base=TB_COMMON + ["modelled: bounds.go (all of it except Polygon/Set/SetCoords), GeometryCollection.Layout/Bounds, geom0.Bounds",
+                                  "Lean Float comparison mirrors Go's math.Min/Max on inputs without NaN and -0 (IEEE-754 hardware)",
+                                  "order-independence of Extend is decided by the semantic oracle on explored inputs, not yet by a theorem"],
+        assumptions=["no NaN, no -0 ordinates (property excludes NaN; math.Min(+0,-0) is not modelled)"],
+    ),
 }
